@@ -127,7 +127,10 @@ def stageOp (d : StageDrv) (ws : List String) : Option (StageDrv × List Prim ×
       (d, processEffects drvH s n now, if (s.mem.vq.any (·.1 == n)) then "ok" else "err-not-queued"))
   | ["finh", n, now] =>
     (parseTime d now).map (fun now => let n := unesc n
-      (d, finhEffects s n now, if (s.mem.fq.any (·.1 == n)) then "ok" else "err-not-queued"))
+      -- the finalize handler is a single consumer of a FIFO channel: only the head can be taken
+      match s.mem.fq with
+      | [] => (d, [], "err-not-queued")
+      | (h, _) :: _ => if h == n then (d, finhEffects s n now, "ok") else (d, [], "err-not-head"))
   | ["firetimer", n] => let n := unesc n
     some (d, timerEffects s n, if s.mem.timers.contains n then "ok" else "err-no-timer")
   | ["consume", t] => some (d, [Prim.rmFinal (unesc t)], "ok")
